@@ -46,6 +46,13 @@ TEMPLATES = [
     ("ij->i", [(2, 3)]),                      # single operand, reduced last axis
     ("ij->", [(2, 3)]),
     ("ij,i->i", [(2, 3), (2,)]),              # the reduced axis is fixed by no other operand
+    ("ij,->ij", [(2, 3), ()]),                # a 0-d operand (scalar-like ARRAY)
+    (",i->i", [(), (3,)]),
+    (",->", [(), ()]),
+    ("ijk,ijk->ik", [(1, 1, 3), (2, 2, 3)]),  # two broadcast unit axes, then a real one
+    ("ijk,ijk->ijk", [(2, 1, 1), (2, 2, 3)]),  # ... at the end
+    ("ijkl,ijkl->il", [(2, 1, 1, 3), (2, 2, 2, 3)]),
+    ("ijk,jk,ik->k", [(2, 2, 3), (1, 3), (1, 1)]),
 ]
 S_INT = {"py": "int", "v": "3"}
 S_FLT = {"py": "float", "v": "0.5"}
